@@ -183,7 +183,7 @@ func GenUniverse(r *rand.Rand, o UOpts) *Universe {
 	}
 	for i := 0; i < o.NIndexes; i++ {
 		mt := MTIndex
-		if o.Docker && r.Intn(4) == 0 {
+		if o.Docker && r.Intn(2) == 0 {
 			mt = MTDockerList
 		}
 		var ch []*Man
